@@ -291,6 +291,36 @@ def run(ctx):
     if not ok:
         finding('C07.e', 'R-PROV', sv_m, '; '.join(norm(n) for n in stores) or 'store', 'the in-memory cassette stores the live object instead of its encoded text: '
                 'later mutation of the saved objects changes what is fetched')
+    # ---------------- C07.f a saved recording stays fetchable: nothing but close() removes entries from a store
+    from . import common
+    cf = res.clause('C07.f', 'R-WHOCALLS', 'only close() removes stored recordings (no eviction, no expiry)', floor=2)
+    removers = {'pop', 'popitem', 'clear', 'remove', 'discard'}
+    for cn in ('InMemoryTapeCassette', 'FileBasedTapeCassette'):
+        c_ = repo.find_class(cn)
+        if c_ is None:
+            raise AnalysisError('anchor-lost class=%s' % cn)
+        bad = []
+        for m in c_.methods.values():
+            if m.name in ('close', '__exit__', '__init__'):
+                continue
+            for n in ast.walk(m.node):
+                if isinstance(n, ast.Delete) and any(isinstance(t, ast.Subscript) and common.self_attr(t.value) for t in n.targets):
+                    bad.append((m, n, 'del on a field'))
+                if isinstance(n, ast.Call) and isinstance(n.func, ast.Attribute) and n.func.attr in removers and common.self_attr(n.func.value):
+                    bad.append((m, n, 'self.%s.%s(...)' % (common.self_attr(n.func.value), n.func.attr)))
+                if isinstance(n, ast.Call) and norm(n.func) in ('os.remove', 'os.unlink', 'shutil.rmtree', 'os.rmdir'):
+                    bad.append((m, n, norm(n.func)))
+                # re-binding the store to a filtered / truncated copy of itself
+                if isinstance(n, ast.Assign) and any(common.self_attr(t) for t in n.targets) and m.name != '__init__':
+                    f = [common.self_attr(t) for t in n.targets if common.self_attr(t)][0]
+                    if any(common.self_attr(x) == f for x in ast.walk(n.value)):
+                        bad.append((m, n, 'self.%s rebuilt from itself' % f))
+        cf.instance('%s: no removal of stored recordings outside close()' % cn, cn, not bad)
+        cf.evaluations += len(c_.methods)
+        for m, n, what in bad[:2]:
+            res.add(Finding('C07', 'C07.f', 'R-WHOCALLS', m.file, m.qualname, n.lineno, norm(n)[:100],
+                            '%s in %s removes stored recordings: a recording that was saved can later fail to be fetched (NoSuchRecording) although '
+                            'the cassette was not closed' % (what, m.qualname)))
     return res
 
 
